@@ -11,7 +11,8 @@ RULE = ('random interval pairs (incl. non-multiples and callables of the step), 
         'after every op the step count and after every step the gradient (as the model\'s symbolic value term evaluated '
         'in float64 on the data the real hooks saw) are compared with the real run; callables are instrumented to log '
         'the step they are called with; the reference K-FAC state machine is the failing-input oracle; '
-        'non-trivial = ≥3 steps and intervals not both 1')
+        'non-trivial = ≥3 steps and intervals not both 1'
+        '; roll-back histories (state kept in memory, trained on, loaded again)')
 TRUSTED = [
     'Lean 4.33 kernel; axioms audited ⊆ {propext, Classical.choice, Quot.sound}',
     'hand-written model KV.Precond tied to kfac/base_preconditioner.py + kfac/layers/*.py by this correspondence',
